@@ -1142,10 +1142,15 @@ def bn(o, a, b):
 
 
 def exp_expr(rng, q):
-    """a constant expression (literals, + - * /, unary minus) whose value is q != 0"""
+    """a constant expression (literals, + - * /, unary minus) whose value is q (0 included: the
+    literal 0, and composite expressions that evaluate to 0)"""
     q = Fraction(q)
     forms = []
-    if q.denominator == 1 and q > 0:
+    if q == 0:
+        forms += [num("0"), bn("-", num("1"), num("1")), bn("-", bn("*", num("2"), num("3")), num("6")),
+                  bn("*", num("0"), num("3")), bn("-", num("0.5"), num("0.5")),
+                  bn("/", bn("-", num("2"), num("2")), num("3"))]
+    elif q.denominator == 1 and q > 0:
         n = q.numerator
         forms += [num(str(n)), num(str(n)), num(str(n)), bn("/", num(str(2 * n)), num("2")),
                   bn("-", bn("*", num("2"), num(str(n))), num(str(n)))]
@@ -1318,7 +1323,7 @@ class Gen:
         if depth <= 0 or rng.random() < 0.12:
             return self.atom(T, pos)
         opts = [("prod", 3.0), ("sum", 3.0), ("pow", 1.2), ("conv", 0.9), ("if", 0.9), ("lib", 1.6),
-                ("atom", 0.8)]
+                ("atom", 0.8), ("zpow", 0.45)]
         if not pos:
             opts += [("neg", 0.3), ("zero", 0.35)]
         r = rng.random() * sum(w for _, w in opts)
@@ -1341,6 +1346,15 @@ class Gen:
         if o == "sum":
             op = "+" if pos or rng.random() < 0.6 else "-"
             return self.site("sum", bn(op, self.gen(T, d, pos), self.gen(T, d, pos)), [2, 3], T)
+        if o == "zpow":
+            # a dimensionful thing raised to a constant that evaluates to 0 (dimensionless factor),
+            # or the whole expression raised to a constant that evaluates to 1
+            if rng.random() < 0.7:
+                f, F = self.free(d, True)
+                z = bn("^", f, exp_expr(rng, 0))
+                x = self.gen(T, d, pos)
+                return rng.choice([bn("*", x, z), bn("*", z, x), bn("/", x, z)])
+            return bn("^", self.gen(T, d, pos), exp_expr(rng, 1))
         if o == "pow":
             if not T and rng.random() < 0.4:
                 return bn("^", num(rng.choice(["2", "3", "1.5"])), self.gen({}, d, pos))
@@ -1756,6 +1770,20 @@ def _gen_statements(self, n):
 Gen.gen_statements = _gen_statements
 
 
+def has_zero_exponent(x):
+    """some power whose constant exponent evaluates to 0 (what is under it has no influence on the
+    dimension, so a unit swapped there does not make the program inconsistent)"""
+    if isinstance(x, (list, tuple)):
+        if len(x) == 4 and x[0] == "bin" and x[1] == "^":
+            try:
+                if const_eval(x[3]) == 0:
+                    return True
+            except Exception:
+                pass
+        return any(has_zero_exponent(y) for y in x)
+    return False
+
+
 def gen_program(rng, nstmts=None, start=0):
     """a well-dimensioned program: dict(stmts, types (by construction), sites, gen)"""
     g = Gen(rng, start)
@@ -2023,3 +2051,53 @@ def prelude_rejected(binary):
         if line.startswith("prelude-rejected "):
             return line[len("prelude-rejected "):]
     return None
+
+
+# --------------------------------------------------------------- struct templates (source level)
+# Structs are outside the Coq model and the tuple AST; these by-construction programs exercise
+# struct definitions, instantiation, field access, generic structs and lists of structs on the
+# implementation only.  Each template: source text, expected verdict, expected raw dimension of
+# some `let`s (for accepted ones).
+_SQ = [("m", {"Length": 1}, "Length"), ("s", {"Time": 1}, "Time"), ("kg", {"Mass": 1}, "Mass"),
+       ("A", {"Current": 1}, "Current"), ("K", {"Temperature": 1}, "Temperature")]
+
+
+def raw_dim_text(d):
+    d = {k: Fraction(v) for k, v in d.items() if Fraction(v) != 0}
+    return "D[" + ";".join("b%s^%d/%d" % (k, d[k].numerator, d[k].denominator) for k in sorted(d)) + "]"
+
+
+def _dmul(a, b, sb=1):
+    out = dict(a)
+    for k, v in b.items():
+        out[k] = out.get(k, 0) + sb * v
+    return out
+
+
+def struct_templates(rng, k):
+    """-> list of dict(source, expect, lets)"""
+    (u1, d1, n1), (u2, d2, n2) = rng.sample(_SQ, 2)
+    u3, d3, n3 = rng.choice([q for q in _SQ if q[1] not in (d1, d2)])
+    S, G = "Sa%d" % k, "Sg%d" % k
+    v, w, r = "vs%d" % k, "vt%d" % k, "vq%d" % k
+    c1, c2 = rng.choice(["2", "3", "1.5"]), rng.choice(["4", "5", "0.5"])
+    out = []
+    base = "struct %s { fa: %s, fb: %s }\nlet %s = %s { fa: %s %s, fb: %s %s }\n" % (S, n1, n2, v, S, c1, u1, c2, u2)
+    out.append(dict(source=base + "let %s = %s.fa / %s.fb\nlet %s = %s.fa * %s.fa" % (r, v, v, w, v, v),
+                    expect="accept", lets={r: raw_dim_text(_dmul(d1, d2, -1)), w: raw_dim_text(_dmul(d1, d1))}))
+    out.append(dict(source=base + "let %s = %s.fa + %s.fb" % (r, v, v), expect="reject", lets={}))
+    out.append(dict(source="struct %s { fa: %s, fb: %s }\nlet %s = %s { fa: %s %s, fb: %s %s }" % (
+        S, n1, n2, v, S, c1, u2, c2, u2), expect="reject", lets={}))
+    out.append(dict(source=base + "let %s: %s = %s.fb" % (r, n1, v), expect="reject", lets={}))
+    out.append(dict(source=base + "fn fs%d(pq: %s) -> %s = pq.fa^2 / pq.fb\nlet %s = fs%d(%s)" % (
+        k, S, "%s^2 / %s" % (n1, n2), r, k, v), expect="accept",
+        lets={r: raw_dim_text(_dmul(_dmul(d1, d1), d2, -1))}))
+    gen = "struct %s<DA: Dim, DB: Dim> { fx: DA, fy: DA, fz: DB }\n" % G
+    out.append(dict(source=gen + "let %s = %s { fx: %s %s, fy: %s %s, fz: %s %s }\nlet %s = (%s.fx + %s.fy) * %s.fz" % (
+        v, G, c1, u1, c2, u1, c1, u3, r, v, v, v), expect="accept", lets={r: raw_dim_text(_dmul(d1, d3))}))
+    out.append(dict(source=gen + "let %s = %s { fx: %s %s, fy: %s %s, fz: %s %s }" % (
+        v, G, c1, u1, c2, u2, c1, u3), expect="reject", lets={}))
+    out.append(dict(source=base + "let %s = [%s, %s { fa: %s %s, fb: %s %s }]\nlet %s = head(%s).fa" % (
+        w, v, S, c2, u1, c1, u2, r, w), expect="accept", lets={r: raw_dim_text(d1)}))
+    out.append(dict(source=base + "let %s = [%s.fa, %s.fb]" % (w, v, v), expect="reject", lets={}))
+    return out
